@@ -204,14 +204,20 @@ static bool s_par_has(const void *p) {
     return r;
 }
 
-/* backend of the recording parent: the harness's exact-size allocator, or plain malloc (which recycles freed
- * memory — needed to see what the allocator does when a parent block lands on memory of a page it returned) */
+/* PARENT CONFIGURATIONS.  The recording parent forwards to a backend:
+ *   hc        harness/h_common.c exact-size allocator (ASan red zones tight, realloc always moves)   [default]
+ *   malloc    plain malloc/realloc/calloc/free (recycles freed memory; used by `history`)
+ *   default   aws_default_allocator()
+ *   aligned   aws_aligned_allocator()   (posix_memalign; its realloc keeps the block when shrinking)
+ * and may withhold optional entry points, so that aws_mem_realloc / aws_mem_calloc emulate them:
+ *   norealloc hc without mem_realloc;   nocalloc hc without mem_calloc;   bare hc with neither */
 static bool s_par_raw;
+static struct aws_allocator *s_backend;
 static size_t s_par_base;
 
 static void *s_par_acquire(struct aws_allocator *a, size_t size) {
     (void)a;
-    void *p = s_par_raw ? malloc(size) : hc_allocator()->mem_acquire(hc_allocator(), size);
+    void *p = s_par_raw ? malloc(size) : s_backend->mem_acquire(s_backend, size);
     s_par_add(p);
     return p;
 }
@@ -223,14 +229,14 @@ static void s_par_release(struct aws_allocator *a, void *p) {
         if (s_par_raw) {
             free(p);
         } else {
-            hc_allocator()->mem_release(hc_allocator(), p);
+            s_backend->mem_release(s_backend, p);
         }
     }
 }
 
 static void *s_par_realloc(struct aws_allocator *a, void *p, size_t oldsize, size_t newsize) {
     (void)a;
-    void *n = s_par_raw ? realloc(p, newsize) : hc_allocator()->mem_realloc(hc_allocator(), p, oldsize, newsize);
+    void *n = s_par_raw ? realloc(p, newsize) : s_backend->mem_realloc(s_backend, p, oldsize, newsize);
     if (n) {
         if (p) {
             s_par_del(p);
@@ -242,7 +248,7 @@ static void *s_par_realloc(struct aws_allocator *a, void *p, size_t oldsize, siz
 
 static void *s_par_calloc(struct aws_allocator *a, size_t num, size_t size) {
     (void)a;
-    void *p = s_par_raw ? calloc(num, size) : hc_allocator()->mem_calloc(hc_allocator(), num, size);
+    void *p = s_par_raw ? calloc(num, size) : s_backend->mem_calloc(s_backend, num, size);
     s_par_add(p);
     return p;
 }
@@ -253,6 +259,31 @@ static struct aws_allocator s_parent = {
     .mem_realloc = s_par_realloc,
     .mem_calloc = s_par_calloc,
 };
+static struct aws_allocator s_parent_norealloc = {
+    .mem_acquire = s_par_acquire,
+    .mem_release = s_par_release,
+    .mem_calloc = s_par_calloc,
+};
+static struct aws_allocator s_parent_nocalloc = {
+    .mem_acquire = s_par_acquire,
+    .mem_release = s_par_release,
+    .mem_realloc = s_par_realloc,
+};
+static struct aws_allocator s_parent_bare = {
+    .mem_acquire = s_par_acquire,
+    .mem_release = s_par_release,
+};
+
+static const char *s_parent_names[] = {"hc", "malloc", "default", "aligned", "norealloc", "nocalloc", "bare", NULL};
+
+static int s_parent_kind(const char *name) {
+    for (int i = 0; s_parent_names[i]; ++i) {
+        if (!strcmp(name, s_parent_names[i])) {
+            return i;
+        }
+    }
+    return -1;
+}
 
 /* ------------------------------------------------------------------ blocks */
 static uint8_t s_pat(size_t k, size_t i) {
@@ -361,16 +392,21 @@ static void s_status(void) {
     }
 }
 
-static void s_new(bool mt, bool raw_parent) {
+static void s_new(bool mt, int parent_kind) {
     HLOCK(&s_pg_lock);
     s_pg_next = 0;
     s_pg_total = 0;
     s_rel_n = 0;
     s_double_release = 0;
     HUNLOCK(&s_pg_lock);
-    s_par_raw = raw_parent;
+    s_par_raw = parent_kind == 1;
+    s_backend = parent_kind == 2 ? aws_default_allocator() : parent_kind == 3 ? aws_aligned_allocator() : hc_allocator();
     s_par_base = s_par_n;
-    s_sba = aws_small_block_allocator_new(&s_parent, mt);
+    struct aws_allocator *par = parent_kind == 4   ? &s_parent_norealloc
+                                : parent_kind == 5 ? &s_parent_nocalloc
+                                : parent_kind == 6 ? &s_parent_bare
+                                                   : &s_parent;
+    s_sba = aws_small_block_allocator_new(par, mt);
     HC_CHECK(s_sba);
     s_page_size = aws_small_block_allocator_page_size(s_sba);
     s_hdr = s_page_size - aws_small_block_allocator_page_size_available(s_sba);
@@ -758,7 +794,7 @@ static void s_sc_main(void *arg) {
 static void s_sc_run(const struct ds_config *cfg, struct sc_verdict *v) {
     static struct blk all[SC_MAXT * SC_MAXB + SC_MAXB];
     memset(v, 0, sizeof(*v));
-    s_new(true, false);
+    s_new(true, 0);
     /* main pre-acquires and hands the blocks out */
     struct blk mainb[SC_MAXB];
     size_t nmain = 0;
@@ -970,9 +1006,9 @@ int main(void) {
         if (!strcmp(t[0], "case")) {
             s_reset();
             hc_case_begin(t[1]);
-        } else if (!strcmp(t[0], "new") && (n == 2 || (n == 3 && !strcmp(t[2], "malloc"))) && !s_sba &&
+        } else if (!strcmp(t[0], "new") && (n == 2 || (n == 3 && s_parent_kind(t[2]) >= 0)) && !s_sba &&
                    (!strcmp(t[1], "mt=0") || !strcmp(t[1], "mt=1"))) {
-            s_new(!strcmp(t[1], "mt=1"), n == 3);
+            s_new(!strcmp(t[1], "mt=1"), n == 3 ? s_parent_kind(t[2]) : 0);
             printf("P new ok\n");
             s_status();
 #ifdef SBA_SCHED
